@@ -30,6 +30,11 @@ pub fn run(sc: &Value) -> Value {
             if sc["prior"].as_bool().unwrap_or(false) || has_prior_files {
                 backup(&archive, &src, &opts, TestMonitor::arc()).await.unwrap();
             }
+            if sc["headless_above"].as_bool().unwrap_or(false) {
+                // an earlier run was killed after creating its band directory and before writing the head
+                let next = archive.list_band_ids().await.unwrap().last().map(|b| b.next_sibling()).unwrap_or(BandId::zero());
+                std::fs::create_dir(arch.join(next.to_string())).unwrap();
+            }
             if has_prior_files {
                 std::fs::remove_dir_all(&src).unwrap();
                 std::fs::create_dir_all(&src).unwrap();
